@@ -1630,7 +1630,13 @@ const PATCH_LINES: [&[u8]; 14] = [
     b"Fix build on SunOS.",
     b"+\tprintf(\"%s\\n\", s);",
 ];
-pub const NETBSD_LINES: [&[u8]; 7] = [
+pub const NETBSD_LINES: [&[u8]; 11] = [
+    // the marker directly behind a proper prefix of itself (a hand-written
+    // single-pass matcher that does not re-examine the mismatching byte)
+    b"$$NetBSD$$",
+    b"+.include \"$Net$NetBSD: x $\"",
+    b"$NetBS$NetBSD",
+    b"$N$Ne$Net$NetB$NetBSD",
     b"$NetBSD: patch-aa,v 1.3 2024/05/27 23:27:10 riastradh Exp $",
     b"$NetBSD$",
     b"# $NetBSD: Makefile,v 1.1 2001/01/01 00:00:00 j\xf6rg Exp $",
